@@ -111,9 +111,9 @@ CLAIMED = {
     "C09": dict(
         text="Machine-checked proof of the orchestration facts: the convergence loop exits only on a repeated text or a spent budget; a text on which every "
              "stage is the identity is a fixed point of format_code and of all its iterates; on a cycle the loop returns a member of the cycle (witness); "
-             "fix remembers only the initial text. 5 theorems. Convergence of the rule set is examined by the 7-fold iteration sweep (corpus x options, and a line-limit family: long statements at nesting depths 0-12 x limits 60 / 80 / 100).",
+             "fix remembers only the initial text; the orientation heuristic of swap_if_else (_orelse_preferred_as_body) never prefers both orders of two branches that are not both pass-only and hold no dead code behind a leading jump, so one if is not swapped back and forth (both hypotheses are needed: witnesses). 7 theorems. Convergence of the rule set is examined by the 7-fold iteration sweep (corpus x options, and a line-limit family: long statements at nesting depths 0-12 x limits 60 / 80 / 100).",
         design="4/C09",
-        note="Trusted: Lean kernel; Driver model tied by suite driver; confluence/termination of the ~95 heuristic rules is not a theorem.",
+        note="Trusted: Lean kernel; Driver model tied by suite driver; Orient.lean tied by suite orient (every ordered pair of 27 branches, summaries measured with the real is_blocking / _count_branches); confluence/termination of the ~95 heuristic rules is not a theorem.",
         technique="Lean 4 proof (loop invariants) + orchestration correspondence + iteration sweep",
     ),
     "C12": dict(
@@ -122,7 +122,7 @@ CLAIMED = {
              "semantics with one canonical text per wildcard name, for all trees, templates, class hierarchies and fuels; bindings are functional. "
              "(3) every tree matches itself: a tree read as a template is accepted with no bindings, for every tree with distinct field names and every fuel from an explicit bound on. "
              "Completeness is false in general (nested-list backtracking): counterexample evaluated on the model and replayed on the code (known finding). "
-             "(4) the statement windows walk_sequence tries (zip of k shifted slices, Python's negative-stop rule included) are exactly the contiguous windows of k statements, each once, in order, for every body and k >= 1. 6 theorems. "
+             "(4) the statement windows walk_sequence tries (zip of k shifted slices, Python's negative-stop rule included) are exactly the contiguous windows of k statements, each once, in order, for every body and k >= 1; (5) walk_wildcard reports exactly the nodes whose type fits one of the alternative templates and that the template matches, each once, for every scope, subclass relation and matcher. 7 theorems. "
              "Statement-sequence search as a whole is checked against a reference computed from the ast (every window in body / else blocks, with multiplicity).",
         design="4/C12",
         note="Trusted: Lean kernel; Quant/Match models tied by suites perms (exhaustive small scope) and match (templates harvested from the running pipeline + "
